@@ -208,18 +208,6 @@ def gop? (tok : String) : Option GOp :=
   | "D" :: d => do pure (.defn (← desc? d))
   | _ => none
 
-/-- `Dev_global_declaration_nonextensible`: a `var` / function declaration that has to create its binding on a
-    non-extensible global object is dropped silently; ES5 §10.2.1.2.2 CreateMutableBinding defines with Throw = true -/
-def devGlobalNonExt (g : MObj) : GOp → Bool
-  | .varDecl _ => !gHas g && !g.ext
-  | .varInit _ => !gHas g && !g.ext
-  | .funDecl _ => !gHas g && !g.ext
-  | _ => false
-
-def devGRun (g : MObj) : List GOp → List String
-  | [] => []
-  | op :: ops => (if devGlobalNonExt g op then ["global_declaration_nonextensible"] else []) ++ devGRun (gStep g op).1 ops
-
 /-! ### m <dp|cr> <name>:<act>,…   Object.defineProperties / Object.create with a side-effecting descriptor map -/
 def mact? (s : String) : Option MAct :=
   match s.toList with
@@ -238,26 +226,6 @@ def ment? (s : String) : Option (Name × MAct) :=
 def ments? : List String → Option (List (Name × MAct))
   | [] => some []
   | s :: t => do let e ← ment? s; let r ← ments? t; pure (e :: r)
-
-/-- `Dev_defineProperties_live_keys`: a member of the descriptor map is deleted or made non-enumerable by the
-    getter of an earlier member: otto skips it, ES5 15.2.3.7 took the names before reading anything -/
-def walkSkips (ents : List (Name × MAct)) : Nat → List Bool → Nat → Bool
-  | 0, _, _ => false
-  | fuel + 1, gone, i =>
-    match ents[i]? with
-    | none => false
-    | some (_, act) =>
-      if gone.getD i false then true            -- otto reaches a member that an earlier getter removed / hid
-      else
-        match act with
-        | .plain => walkSkips ents fuel gone (i + 1)
-        | .del j => walkSkips ents fuel (gone.set j true) (i + 1)
-        | .hide j => walkSkips ents fuel (gone.set j true) (i + 1)
-        | .bad => false
-        | .thr => false
-
-def devLiveKeys (ents : List (Name × MAct)) : Bool :=
-  walkSkips ents (ents.length + 1) (ents.map fun _ => false) 0
 
 def mapS (x : Outcome × List Name) : String := outS x.1 ++ "|" ++ namesS x.2
 
@@ -330,7 +298,7 @@ def handle (ws : List String) : String :=
      | none => "bad-op")
   | ["m", _fn, es] =>
     (match ments? (es.splitOn ",") with
-     | some ents => mapS (defineMap ents) ++ " " ++ mapS (Spec.defineMap ents) ++ " " ++ (if devLiveKeys ents then "defineProperties_live_keys" else "-")
+     | some ents => mapS (defineMap ents) ++ " " ++ mapS (Spec.defineMap ents) ++ " -"
      | none => "bad-op")
   | ["p", f, a] =>
     match objFn? f, primArg? a with
@@ -342,7 +310,7 @@ def handle (ws : List String) : String :=
     | none => "bad-op"
     | some ops =>
       let g0 : MObj := ⟨none, true, []⟩
-      joinOr ";" ((gRun g0 ops).map gobsS) ++ " " ++ joinOr ";" ((Spec.gRun ⟨none, true, []⟩ ops).map gobsS) ++ " " ++ joinOr "," (dedup (devGRun g0 ops))
+      joinOr ";" ((gRun g0 ops).map gobsS) ++ " " ++ joinOr ";" ((Spec.gRun ⟨none, true, []⟩ ops).map gobsS) ++ " -"
   | "a" :: toks =>
     match aops? toks with
     | none => "bad-op"
